@@ -134,7 +134,7 @@ impl Prop for C08 {
         "C08"
     }
     fn rule(&self) -> String {
-        "eight complete families (incl. flat repetition: 15 kinds of list of 16 / 256 / 4096 / 65536 items — doubled quotes, string digits, enumerals, components, arcs, assignments, comments …), both backends, every case in a worker subprocess with a 10 s watchdog, 8 MiB stack, 6 GiB address-space cap; compile + Display + contextualize of every error and warning: (1) all sequences of <=L tokens (quick 3, thorough 4) over a 40-token alphabet as whole input / module body / after `A ::=`; (2) every byte prefix of the 37 feature modules, token-boundary prefixes of the smallest real-world modules, and every single-token edit (delete, duplicate, swap, replace by / insert each of the 40 tokens) at every token position of the feature modules (thorough: + 30 real-world modules); (3) é/€/𝄞 inserted at every character position of the feature modules; (4) every feature module left inside an unterminated comment (line, block depth 1..3), cstring, bstring, brace, parenthesis, version bracket; (5) all functional reference graphs on 3 nodes over 8 edge kinds (alias, constrained alias, COMPONENTS OF, member, OF element, selection, CHOICE alternative, parameterized instantiation) with/without a value of the first type, nesting depth 2^k (quick <=4096, thorough <=65536) for 14 bracket-like recursions, and 16 parsed-but-unsupported notations in 6 positions; (6) boundary numbers: 23 number positions of the grammar (enumeration item / addition, named number, named bit, range ends, size, tag, OID arc, value, DEFAULT, version number, REAL value / DEFAULT / range / mantissa-base-exponent) x 19 boundaries (i128/i64/u64/u32 extremes and their neighbours, -1, 0, beyond i128, 10^400 and its negative, real numbers with exponents beyond f64); (7) every feature module (thorough: + real-world modules) under each non-default generator option {non-opaque open types, From impls, no_std, wildcard imports} and all together. Oracle: the worker answers within the watchdog with a non-panic outcome. Non-trivial: the input reached the compiler and a verdict came back.".into()
+        "eight complete families (incl. flat repetition: 15 kinds of list of 16 / 256 / 4096 / 65536 items — doubled quotes, string digits, enumerals, components, arcs, assignments, comments …), both backends, every case in a worker subprocess with a 10 s watchdog, 8 MiB stack, 6 GiB address-space cap; compile + Display + contextualize of every error and warning: (1) all sequences of <=L tokens (quick 3, thorough 4) over a 40-token alphabet as whole input / module body / after `A ::=`; (2) every byte prefix of the 38 feature modules, token-boundary prefixes of the smallest real-world modules, and every single-token edit (delete, duplicate, swap, replace by / insert each of the 40 tokens) at every token position of the feature modules (thorough: + 30 real-world modules); (3) é/€/𝄞 inserted at every character position of the feature modules; (4) every feature module left inside an unterminated comment (line, block depth 1..3), cstring, bstring, brace, parenthesis, version bracket; (5) all functional reference graphs on 3 nodes over 8 edge kinds (alias, constrained alias, COMPONENTS OF, member, OF element, selection, CHOICE alternative, parameterized instantiation) with/without a value of the first type, nesting depth 2^k (quick <=4096, thorough <=65536) for 14 bracket-like recursions, and 16 parsed-but-unsupported notations in 6 positions; (6) boundary numbers: 23 number positions of the grammar (enumeration item / addition, named number, named bit, range ends, size, tag, OID arc, value, DEFAULT, version number, REAL value / DEFAULT / range / mantissa-base-exponent) x 19 boundaries (i128/i64/u64/u32 extremes and their neighbours, -1, 0, beyond i128, 10^400 and its negative, real numbers with exponents beyond f64); time values: 6 UTCTime / GeneralizedTime strings with every prefix and every character replaced by / preceded by é € x + - :, as value and DEFAULT; (7) every feature module (thorough: + real-world modules) under each non-default generator option {non-opaque open types, From impls, no_std, wildcard imports} and all together. Oracle: the worker answers within the watchdog with a non-panic outcome. Non-trivial: the input reached the compiler and a verdict came back.".into()
     }
     fn assumptions(&self) -> Vec<String> {
         vec!["panic keys are file::function (resolved with syn from the panic Location) + message class; crashes/hangs are keyed by the input-shape label".into()]
@@ -700,6 +700,33 @@ impl Prop for C08 {
         for (pl, ptext) in positions.iter() {
             for (bl, b) in boundaries.iter() {
                 push("unsupported", format!("boundary:{pl}:{bl}"), module(&ptext.replace('#', b)), "both");
+            }
+        }
+        // (6b) time values: every character of a UTCTime / GeneralizedTime string replaced by / preceded by a multi-byte
+        // character, a letter, a sign; every prefix of the string; as value and as DEFAULT (the generator slices these strings)
+        let times: [(&str, &str); 6] = [("GeneralizedTime", "2020010112+0130"), ("GeneralizedTime", "20200101120000.5-0530"), ("GeneralizedTime", "202001011200Z"), ("UTCTime", "200101011200Z"), ("UTCTime", "2001010112+0100"), ("UTCTime", "200101011200-0545")];
+        for (ti, (ty, base)) in times.iter().enumerate() {
+            if !tier.thorough() && ti % 2 == 1 {
+                continue; // quick: one string per shape (offset with minutes, fraction + offset, UTCTime Z)
+            }
+            let chars: Vec<char> = base.chars().collect();
+            let mut variants: Vec<(String, String)> = vec![];
+            for i in 0..=chars.len() {
+                variants.push((format!("prefix{i}"), chars[..i].iter().collect()));
+                for ins in if tier.thorough() { vec!['é', '€', 'x', '+', '-', ':'] } else { vec!['é', 'x', '+'] } {
+                    let mut v: Vec<char> = chars.clone();
+                    v.insert(i, ins);
+                    variants.push((format!("insert{i}:{ins}"), v.iter().collect()));
+                    if i < chars.len() {
+                        let mut r = chars.clone();
+                        r[i] = ins;
+                        variants.push((format!("replace{i}:{ins}"), r.iter().collect()));
+                    }
+                }
+            }
+            for (vl, v) in variants {
+                push("unsupported", format!("time:{ty}:{base}:{vl}:value"), module(&format!("t {ty} ::= \"{v}\"")), "both");
+                push("unsupported", format!("time:{ty}:{base}:{vl}:default"), module(&format!("Sx ::= SEQUENCE {{ t {ty} DEFAULT \"{v}\" }}")), "both");
             }
         }
         out
